@@ -104,12 +104,10 @@ def h_ov_drain(prop, case, facts, kind="dfa", n=3, an=UN, kcap=10, timeout=900, 
     meta = dict(template="ov_drain", replay_template="overlapping", kind=kind, N=n, K=k, anchored_mode=AMODE[an],
                 symbolic=["haystack bytes"] + (["span"] if span else []), fixed_inputs=fixed,
                 note="haystacks with more than K-1 occurrences are outside this harness (assume)")
-    unsat = set()
+    # whether these two are satisfiable depends on N and the pattern list (optional witnesses)
+    unsat = {"two consecutive matches with the same end", "three or more overlapping matches"}
     if any(len(x) == 0 for x in case.pats) and (not span or an == UN):
         unsat.add("no occurrence")
-    if an == AN:
-        # anchored: all matches start at the span start, so these depend on the pattern list
-        unsat |= {"two consecutive matches with the same end", "three or more overlapping matches"}
     return Harness(name, case, body, max(base_unwind(case, facts, n), k + 1), schema, meta, timeout=timeout,
                    functions=F_OV + F_KIND[kind], unsat_ok=unsat)
 
@@ -122,8 +120,9 @@ def h_ov_step(prop, case, facts, kind="dfa", n=5, timeout=900):
                 symbolic=["haystack bytes", "span", "position of the current match state", "number of its matches already reported"],
                 fixed_inputs={"anchored": 0},
                 induction="pre-state = (state after hay[s..=at] is a match state, i>=1 of its matches reported); one call yields the specification's next occurrence")
+    # which of the two "a further match" witnesses is satisfiable depends on the pattern list
     return Harness(name, case, body, base_unwind(case, facts, n), schema, meta, timeout=timeout,
-                   functions=F_OV + F_KIND[kind])
+                   functions=F_OV + F_KIND[kind], unsat_ok={"next match has the same end", "next match ends later"})
 
 
 def h_ov_first(prop, case, facts, kind="dfa", n=5, timeout=900):
@@ -195,38 +194,97 @@ def chunks(lo, hi, size):
         i += size
 
 
-def h_sim(prop, case, facts, pair="cd", an=UN, group=8, timeout=900):
-    """Simulation-step harnesses for every row of the proposed relation."""
+def sim_unwind(case, facts, pair, nrel):
     f = facts[case.name]
-    rel = f["rel_a"] if an == AN else f["rel_u"]
+    need = [nrel + 1, len(case.pats) + 1, 4]
+    if pair in ("nd", "nc"):
+        # sparse list walks (bounded by the longest non-dense list of a real state; the DEAD and
+        # FAIL sentinels, ids 0 and 1, carry 256-entry lists and are handled by unwindset /
+        # the nnfa_dead harness) and match list walks
+        mx = max([st[1] for st in f["nnfa_states"] if not st[2] and st[0] > 1 and st[1] <= 16] + [st[3] for st in f["nnfa_states"]] + [1])
+        need.append(mx + 2)
+        need.append(max(st[5] for st in f["nnfa_states"]) + 3)  # failure loop <= depth + 1
+    if pair in ("cd", "nc"):
+        need.append(max([(st[2] + 3) // 4 for st in f["cnfa_states"] if st[1] == 0] + [1]) + 2)
+        need.append(max(st[5] for st in f["nnfa_states"]) + 3)
+        need.append(max(st[3] for st in f["nnfa_states"]) + 2)
+    return max(need)
+
+
+def long_walk(f, sid, anchored):
+    """Does next_state on nnfa state sid possibly walk a long (> 16 entries)
+    sparse list? That is the case when the state itself, or - for an
+    unanchored step - a state on its failure chain, keeps a long non-dense
+    list: the DEAD sentinel (256 entries) and, with dense_depth(0), the start
+    state (256 self-loop entries)."""
+    st = {x[0]: x for x in f["nnfa_states"]}
+    seen = 0
+    while seen < 10000:
+        if (not st[sid][2]) and st[sid][1] > 16:
+            return True
+        if anchored:
+            return False
+        nf = f["nnfa_fail"][sid]
+        if nf == sid or sid == f["nnfa_special"][2]:
+            return False
+        sid = nf
+        seen += 1
+    return True
+
+
+def h_sim(prop, case, facts, pair="cd", modes=(UN, AN), group=64, timeout=1200, dead_rows=None):
+    """Simulation-step harnesses for the rows of the proposed relation(s): one
+    harness per chunk of `group` rows, covering the given anchoring modes.
+    For the noncontiguous NFA, dead_rows selects the rows whose step may walk
+    a long sparse list (True: only those, False: only the others, None: all)."""
+    f = facts[case.name]
     hs = []
-    nn = {st[0]: st for st in f["nnfa_states"]}
-    cn = {st[0]: st for st in f["cnfa_states"]}
-    for (lo, hi) in chunks(0, len(rel), group):
-        name = "h_sim%s_%s_a%d_r%d_%d" % (pair, case.name, an, lo, hi)
-        body = "    t::sim_%s::<%s, %d, %d, %d>();" % (pair, case.mod, an, lo, hi)
-        # loop bounds: relation scan, rebuild rows, and the real next_state loops
-        need = [len(rel) + 1, f["dfa_match_rows"] + 1, hi - lo + 1, len(case.pats) + 1]
-        if pair in ("nd", "nc"):
-            # sparse list walks (bounded by the longest non-dense list) and match list walks
-            mx = max([st[1] for st in f["nnfa_states"] if not st[2]] + [st[3] for st in f["nnfa_states"]] + [1])
-            need.append(mx + 2)
-            need.append(max(st[4] for st in f["nnfa_states"]) + 3)  # failure loop
-        if pair in ("cd", "nc"):
-            need.append(max([(st[2] + 3) // 4 for st in f["cnfa_states"] if st[1] == 0] + [1]) + 2)
-            need.append(max(st[5] for st in f["nnfa_states"]) + 3)  # failure loop <= depth + 1
-            need.append(max(st[3] for st in f["nnfa_states"]) + 2)
-        unwind = max(need)
-        schema = []
-        for i in range(lo, hi):
-            schema += [("b%d" % i, "u8"), ("k%d" % i, "usize")]
-        meta = dict(template="sim_" + pair, replay_template="sim", pair=pair, rows=[lo, hi], anchored_mode=AMODE[an],
-                    states=hi - lo, symbolic=["input byte (per related state)", "match list index"],
-                    fixed_inputs={"anchored": int(an == AN), "pair": pair, "lo": lo, "hi": hi},
+    work = []  # (an, lo, hi)
+    for an in modes:
+        rel = f["rel_a"] if an == AN else f["rel_u"]
+        rows = list(range(len(rel)))
+        if dead_rows is not None and pair in ("nd", "nc"):
+            isdead = [long_walk(f, rel[i][0], an == AN) for i in rows]
+            rows = [i for i in rows if isdead[i] == dead_rows]
+        # contiguous runs of selected rows, cut to `group`
+        run = []
+        for i in rows + [None]:
+            if i is not None and (not run or i == run[-1] + 1) and len(run) < group:
+                run.append(i)
+                continue
+            if run:
+                work.append((an, run[0], run[-1] + 1))
+            run = [i] if i is not None else []
+    # pack chunks into harnesses of at most `group` rows
+    packs, cur, cnt = [], [], 0
+    for w in work:
+        n = w[2] - w[1]
+        if cur and cnt + n > group:
+            packs.append(cur)
+            cur, cnt = [], 0
+        cur.append(w)
+        cnt += n
+    if cur:
+        packs.append(cur)
+    nrel = max(len(f["rel_a"]), len(f["rel_u"]))
+    for k, pack in enumerate(packs):
+        name = "h_sim%s%s_%s_p%d" % (pair, "x" if dead_rows else "", case.name, k)
+        body = "\n".join("    t::sim_%s::<%s, %d, %d, %d>();" % (pair, case.mod, an, lo, hi) for (an, lo, hi) in pack)
+        schema = []  # the native replay re-checks the rows exhaustively over all bytes
+        fixed = {"pair": pair, "parts": ";".join("%d:%d:%d" % w for w in pack)}
+        meta = dict(template="sim_" + pair, replay_template="sim", pair=pair,
+                    parts=[dict(anchored=bool(an), rows=[lo, hi]) for (an, lo, hi) in pack],
+                    states=sum(hi - lo for (_a, lo, hi) in pack), symbolic=["input byte (per related state)", "match list index"],
+                    fixed_inputs=fixed,
                     induction="relation R proposed by the native product walk; for every pair in R and every byte the successors are in R and all observations agree; with related start states (sim_meta) this covers haystacks of every length")
         fn = {"cd": F_KIND["cnfa"] + F_KIND["dfa"], "nd": F_KIND["nnfa"] + F_KIND["dfa"], "nc": F_KIND["nnfa"] + F_KIND["cnfa"]}[pair]
-        hs.append(Harness(name, case, body, unwind, schema, meta, timeout=timeout, functions=fn + ["ByteClasses::get"],
-                          covers_required=False))
+        uws = {}
+        if pair in ("nd", "nc") and dead_rows:
+            # these rows follow failure links into the DEAD state, whose 256-entry
+            # sparse list is then walked by the real follow_transition_sparse
+            uws[("follow_transition_sparse", 0)] = 258
+        hs.append(Harness(name, case, body, sim_unwind(case, facts, pair, nrel), schema, meta, timeout=timeout,
+                          functions=fn + ["ByteClasses::get"], covers_required=False, unwindset=uws))
     return hs
 
 
@@ -235,8 +293,8 @@ def h_sim_meta(prop, case, facts, timeout=600):
     name = "h_simmeta_%s" % case.name
     body = "    t::sim_meta::<%s>();" % case.mod
     rel = max(len(f["rel_a"]), len(f["rel_u"]))
-    mx = max([st[1] for st in f["nnfa_states"] if not st[2]] + [st[3] for st in f["nnfa_states"]] + [1])
-    unwind = max(rel + 1, f["dfa_match_rows"] + 1, mx + 2, len(case.pats) + 1, 8)
+    mx = max([st[1] for st in f["nnfa_states"] if not st[2] and st[0] > 1 and st[1] <= 16] + [st[3] for st in f["nnfa_states"]] + [1])
+    unwind = max(rel + 1, mx + 2, len(case.pats) + 1, 8)
     meta = dict(template="sim_meta", replay_template="sim_meta", symbolic=["anchoring argument", "byte", "pattern id", "match index"])
     unsat = set() if case.sk in ("both", "an") else {"anchored start supported"}
     return Harness(name, case, body, unwind, [], meta, timeout=timeout, unsat_ok=unsat,
@@ -266,6 +324,20 @@ def h_reject_fallible(prop, case, facts, kind, api, n=1, timeout=900):
                 symbolic=["haystack bytes", "requested anchoring"], fixed_inputs={"api": API_NAMES[api]})
     return Harness(name, case, body, max(base_unwind(case, facts, n), 6), schema, meta, timeout=timeout, mem_gb=16,
                    functions=F_AC + F_SEARCH + F_ITER + F_OV + F_KIND[kind])
+
+
+def h_iter_never_fails(prop, case, facts, kind="dfa", n=2, ov=False, timeout=900):
+    name = "h_iternf_%s_%s_n%d_ov%d" % (case.name, kind, n, int(ov))
+    body = _body(case, kind, "t::iter_never_fails::<%s, _, %d, %s>(&a)" % (case.mod, n, "true" if ov else "false"))
+    meta = dict(template="iter_never_fails", kind=kind, N=n, K=2, iterator="overlapping" if ov else "non-overlapping",
+                symbolic=["haystack bytes", "requested anchoring"])
+    unsat = set()
+    if ov and (case.mk != "std"):
+        unsat.add("a constructed iterator is stepped")
+    if (not ov) and case.sk != "both" and False:
+        pass
+    return Harness(name, case, body, base_unwind(case, facts, n), [("hay", ("bytes", n)), ("anchored", "bool")], meta,
+                   timeout=timeout, functions=F_ITER + F_OV + F_SEARCH + F_KIND[kind] + ["FindOverlappingIter::next"], unsat_ok=unsat)
 
 
 def h_reject_sr(prop, case, facts, kind, which, timeout=900):
@@ -321,6 +393,17 @@ def pk_unwind(case, facts, n):
     return max(n + 2, len(case.pats) + 1, case.maxlen + 1, f["max_bucket"] + 2, f["rk_hash_len"] + 2)
 
 
+def pk_unwindset(case, facts):
+    """Per-loop bounds for the Rabin-Karp verification path, from the dumped
+    searcher: the bucket scan runs at most (longest bucket) times, the 4-byte
+    chunk loop of is_equal_raw at most ceil(L/4) times, the 3-byte compare is a
+    memcmp. A bound that is too small fails the unwinding assertion."""
+    f = facts[case.key]
+    return {("9RabinKarp7find_at", 0): f["max_bucket"] + 1,
+            ("12is_equal_raw", 0): (case.maxlen + 3) // 4 + 1,
+            ("=memcmp", 0): 5}
+
+
 def h_pk_find(prop, case, facts, n=6, timeout=900):
     name = "h_pkfind_%s_n%d" % (case.name, n)
     body = "    t::pk_find::<%s, %d>();" % (case.mod, n)
@@ -328,7 +411,7 @@ def h_pk_find(prop, case, facts, n=6, timeout=900):
     meta = dict(template="pk_find", replay_template="pk_find", kind="packed:" + facts[case.key]["imp"], N=n,
                 symbolic=["haystack bytes (exactly sized allocation)", "span"])
     return Harness(name, case, body, pk_unwind(case, facts, n), schema, meta, timeout=timeout, functions=F_RK,
-                   stubs=STUB_SIMD if facts[case.key]["teddy_bytes"] else ())
+                   stubs=STUB_SIMD if facts[case.key]["teddy_bytes"] else (), unwindset=pk_unwindset(case, facts))
 
 
 def h_pk_iter2(prop, case, facts, n=5, timeout=900):
@@ -338,7 +421,8 @@ def h_pk_iter2(prop, case, facts, n=5, timeout=900):
     meta = dict(template="pk_iter2", replay_template="pk_iter", kind="packed:" + facts[case.key]["imp"], N=n, K=2,
                 symbolic=["haystack bytes", "span start (induction variable)", "span end"])
     return Harness(name, case, body, pk_unwind(case, facts, n), schema, meta, timeout=timeout,
-                   functions=F_RK + ["packed::FindIter::next"], stubs=STUB_SIMD if facts[case.key]["teddy_bytes"] else ())
+                   functions=F_RK + ["packed::FindIter::next"], stubs=STUB_SIMD if facts[case.key]["teddy_bytes"] else (),
+                   unwindset=pk_unwindset(case, facts))
 
 
 def h_pk_span(prop, case, facts, n=5, timeout=900):
@@ -348,7 +432,7 @@ def h_pk_span(prop, case, facts, n=5, timeout=900):
     meta = dict(template="pk_span", replay_template="pk_span", kind="packed:" + facts[case.key]["imp"], N=n,
                 symbolic=["haystack bytes", "second haystack", "span"])
     return Harness(name, case, body, pk_unwind(case, facts, n), schema, meta, timeout=timeout, functions=F_RK,
-                   stubs=STUB_SIMD if facts[case.key]["teddy_bytes"] else ())
+                   stubs=STUB_SIMD if facts[case.key]["teddy_bytes"] else (), unwindset=pk_unwindset(case, facts))
 
 
 def h_pk_teddy(prop, case, facts, length, off, w, pad, timeout=2400, mem_gb=20):
@@ -362,8 +446,9 @@ def h_pk_teddy(prop, case, facts, length, off, w, pad, timeout=2400, mem_gb=20):
                 note="bytes outside the window are the fixed pad byte: arbitrary multi-match contents of a full vector are outside this harness")
     # loops: window copy w, oracle start loop length+1 ...
     unwind = max(length + 2, len(case.pats) + 1, case.maxlen + 1, 18)
+    uws = pk_unwindset(case, facts)
     return Harness(name, case, body, unwind, schema, meta, timeout=timeout, mem_gb=mem_gb,
-                   functions=F_TEDDY + F_RK, stubs=STUB_SIMD)
+                   functions=F_TEDDY + F_RK, stubs=STUB_SIMD, unwindset=uws)
 
 
 
@@ -458,7 +543,7 @@ def h_work(prop, case, facts, kind="dfa", n=6, an=EITHER, timeout=1200, stubs=()
     f = facts[case.name]
     unwind = base_unwind(case, facts, n)
     if kind != "dfa":
-        mx = max([st[1] for st in f["nnfa_states"] if not st[2]] + [st[3] for st in f["nnfa_states"]] + [1])
+        mx = max([st[1] for st in f["nnfa_states"] if not st[2] and st[0] > 1] + [st[3] for st in f["nnfa_states"]] + [1])
         unwind = max(unwind, mx + 2, max(st[5] for st in f["nnfa_states"]) + 3,
                      max([(st[2] + 3) // 4 for st in f["cnfa_states"] if st[1] == 0] + [1]) + 2)
     unsat = set()
@@ -495,13 +580,35 @@ def h_ac_ismatch(prop, case, facts, kind="dfa", n=4, timeout=1200):
                    functions=["AhoCorasick::{is_match,find,try_find}"] + F_AC + F_SEARCH + F_KIND[kind], unsat_ok=unsat)
 
 
-def h_ac_iter(prop, case, facts, kind="dfa", n=4, timeout=1500):
-    name = "h_aciter_%s_%s_n%d" % (case.name, kind, n)
-    body = "    let ac = %s;\n    t::ac_iter::<%s, %d>(&ac);\n    core::mem::forget(ac);" % (ac_ctor(case, kind), case.mod, n)
+def h_ac_iter(prop, case, facts, kind="dfa", n=4, timeout=1500, which="iter"):
+    name = "h_ac%s_%s_%s_n%d" % (which, case.name, kind, n)
+    body = "    let ac = %s;\n    t::ac_%s::<%s, %d>(&ac);\n    core::mem::forget(ac);" % (ac_ctor(case, kind), which, case.mod, n)
     schema = [("hay", ("bytes", n)), ("s", "usize"), ("e", "usize")]
-    meta = dict(template="ac_iter", replay_template="iter2", kind=kind, N=n, symbolic=["haystack bytes", "span"], fixed_inputs={"anchored": 0})
+    meta = dict(template="ac_" + which, replay_template="iter2" if which == "iter" else "overlapping", kind=kind, N=n,
+                symbolic=["haystack bytes", "span"], fixed_inputs={"anchored": 0})
     return Harness(name, case, body, max(base_unwind(case, facts, n), 8), schema, meta, timeout=timeout,
                    functions=["AhoCorasick::{find_iter,find_overlapping}"] + F_AC + F_SEARCH + F_ITER + F_OV + F_KIND[kind])
+
+
+
+def h_std_struct(prop, case, facts, group=64, timeout=900):
+    """Textbook-automaton check of the standard-semantics DFA, all states."""
+    f = facts[case.name]
+    rel = f["rel_u"]
+    hs = []
+    for (lo, hi) in chunks(0, len(rel), group):
+        name = "h_stdstruct_%s_r%d_%d" % (case.name, lo, hi)
+        body = "    t::std_struct::<%s, %d, %d>();" % (case.mod, lo, hi)
+        unwind = max(len(rel) + 1, len(case.pats) + 1, case.maxlen + 3, hi - lo + 1)
+        meta = dict(template="std_struct", replay_template="std_struct", kind="dfa", states=hi - lo,
+                    symbolic=["input byte (per state)", "match list index"], fixed_inputs={"lo": lo, "hi": hi},
+                    induction="every DFA state is spelled by its breadth-first witness string w; for every state and every byte the successor is the state spelled by the longest suffix of w.b that is a prefix of a pattern, and the state's match list is the ordered list of patterns that are suffixes of w: the DFA is the textbook Aho-Corasick automaton of the pattern list, hence the standard/overlapping definitions hold for haystacks of every length")
+        schema = []
+        for i in range(lo, hi):
+            schema += [("k%d" % i, "usize?"), ("b%d" % i, "u8")]
+        hs.append(Harness(name, case, body, unwind, [], meta, timeout=timeout, covers_required=False,
+                          functions=F_KIND["dfa"] + ["ByteClasses::get"]))
+    return hs
 
 
 # --------------------------------------------------------------------------
@@ -535,7 +642,7 @@ def seeded_cases(prefix, seed, k, mk, **kw):
             elif r < 0.42:
                 pat = b""
             else:
-                ln = rng.randint(1, 4)
+                ln = rng.randint(1, 4) if rng.random() < 0.85 else 5
                 pat = b"".join((core[min(int(rng.random() ** 2 * 3), 2)] if rng.random() < 0.8 else rng.choice(alpha)) for _ in range(ln))
             pats.append(pat)
         out.append(Case("%s_s%d_%d" % (prefix, seed, i), pats, mk=mk, **kw))
@@ -562,6 +669,11 @@ def lm_core(mk):
         # the long pattern's first byte (order of the failure-link traversal)
         Case(p + "_chain2", ["cabx", "abq", "bd"], mk=mk),
         Case(p + "_revchain", ["dcba", "cba", "ba", "a"], mk=mk),
+        # a depth-4 state whose failure link is computed through the failure
+        # link of a depth-2 state in a subtree that sorts earlier (only a
+        # 5-byte pattern makes that link observable under leftmost semantics)
+        Case(p + "_deepchain", ["zabcx", "abq", "bcd"], mk=mk),
+        Case(p + "_deepchain2", ["abcdx", "bcq", "cde", "zz"], mk=mk),
         # 0xFF / 0x00 as pattern bytes (last/first byte class)
         Case(p + "_hi", [b"ab", b"\xff", b"\x00b"], mk=mk),
     ]
@@ -580,6 +692,8 @@ def std_core():
         Case(p + "_cut", ["abcd", "bc", "cd"], mk="std"),
         Case(p + "_chain2", ["cabx", "abq", "bd"], mk="std"),
         Case(p + "_revchain", ["dcba", "cba", "ba", "a"], mk="std"),
+        Case(p + "_deepchain", ["zabc", "abq", "bc"], mk="std"),
+        Case(p + "_deepchain5", ["zabcx", "abq", "bcd"], mk="std"),
         Case(p + "_hi", [b"ab", b"\xff", b"\x00b"], mk="std"),
     ]
 
@@ -617,6 +731,8 @@ def schedule(prop, tier, seed):
                 core = any(k in c.name for k in ("basic", "empty", "chain4", "dup"))
                 if not quick or core:
                     hs.append(h_iter2(prop, c, facts, "dfa", n=4 if quick else 6))
+                if c.sk in ("both", "un"):
+                    hs += h_std_struct(prop, c, facts)
             return hs
         return cases, mk
     if prop == "C03":
@@ -627,12 +743,22 @@ def schedule(prop, tier, seed):
             hs = []
             for c in cases:
                 core = any(k in c.name for k in ("basic", "empty", "dup", "chain4"))
-                hs.append(h_ov_step(prop, c, facts, "dfa", n=4 if quick else 6))
+                # the automaton itself: textbook check, all states, every case
+                hs += h_std_struct(prop, c, facts)
+                # the resumable search loop on top of it
                 if not quick or core:
+                    hs.append(h_ov_step(prop, c, facts, "dfa", n=4 if quick else 6))
+                if not quick or any(k in c.name for k in ("basic", "empty_first")):
                     hs.append(h_ov_first(prop, c, facts, "dfa", n=4 if quick else 6))
-                    hs.append(h_ov_drain(prop, c, facts, "dfa", n=3, kcap=10, span=not quick))
+                    # quick: N=2 (K <= 7 calls); the N=3/N=4 drains need 10-20 GB and minutes
+                    h = h_ov_drain(prop, c, facts, "dfa", n=2 if quick else 3, kcap=10, span=not quick,
+                                   timeout=900 if quick else 2400)
+                    h.mem_gb = 16 if quick else 28
+                    hs.append(h)
                     if not quick:
-                        hs.append(h_ov_drain(prop, c, facts, "dfa", n=4, kcap=14, span=False, timeout=1500))
+                        h = h_ov_drain(prop, c, facts, "dfa", n=4, kcap=14, span=False, timeout=3000)
+                        h.mem_gb = 28
+                        hs.append(h)
             return hs
         return cases, mk
     if prop == "C09":
@@ -707,19 +833,24 @@ def schedule(prop, tier, seed):
         cases = []
         for mkk in ("std", "lf"):
             for (nm, pats) in shapes:
-                if quick and mkk == "lf" and nm in ("fan9", "hi", "chain", "deep5", "deep9", "fan5", "chain2"):
+                if quick and mkk == "lf" and nm not in ("basic", "empty"):
+                    continue
+                if quick and nm not in ("basic", "empty", "deep4", "hi", "dup", "chain2"):
+                    continue
+                if quick and prop == "C16" and nm not in ("basic", "empty", "dup", "deep4"):
                     continue
                 cases.append(Case("%s%s_%s" % (prop.lower(), mkk, nm), pats, mk=mkk))
         # configuration product on one shape
         base = ["abc", "bc", "c", "ab"]
-        for dd in (0, 1, 16):
+        for dd in ((0,) if quick else (0, 1, 16)):
             cases.append(Case("%sstd_dd%d" % (prop.lower(), dd), base, mk="std", dd=dd))
-        cases.append(Case(prop.lower() + "std_nobc", base, mk="std", bc=False))
-        cases.append(Case(prop.lower() + "lf_nobc_dd0", base, mk="lf", bc=False, dd=0))
+        cases.append(Case(prop.lower() + "std_nobc", ["ab", "b"] if quick else base, mk="std", bc=False))
+        if not quick:
+            cases.append(Case(prop.lower() + "lf_nobc_dd0", base, mk="lf", bc=False, dd=0))
+            cases.append(Case(prop.lower() + "ll_basic", base, mk="ll"))
         cases.append(Case(prop.lower() + "std_un", base, mk="std", sk="un"))
         cases.append(Case(prop.lower() + "lf_an", base, mk="lf", sk="an"))
         cases.append(Case(prop.lower() + "std_ci", ["aB", "b@", "Z["], mk="std", ci=True))
-        cases.append(Case(prop.lower() + "ll_basic", base, mk="ll"))
         if not quick:
             for mkk in ("std", "lf", "ll"):
                 cases += seeded_cases(prop.lower() + mkk, seed, 5, mkk)
@@ -732,19 +863,30 @@ def schedule(prop, tier, seed):
                 f = facts[c.name]
                 hs.append(h_sim_meta(prop, c, facts))
                 big = c.dd == 0
-                for an in (UN, AN):
-                    dfa_ok = sk_allows(c, an)
-                    if dfa_ok:
-                        hs += h_sim(prop, c, facts, "cd", an, group=12)
-                        if not (quick and big and prop == "C16"):
-                            hs += h_sim(prop, c, facts, "nd", an, group=2 if big else 6,
-                                        timeout=1500 if big else 900)
-                    else:
-                        hs += h_sim(prop, c, facts, "nc", an, group=2 if big else 6, timeout=1500 if big else 900)
-                if prop == "C04" and c.sk in ("both", "un") and ("basic" in c.name or "empty" in c.name) and (not quick or c.mk != "ll"):
-                    hs.append(h_ac_iter(prop, c, facts, "dfa", n=3 if quick else 4))
+                dfa_modes = tuple(an for an in (UN, AN) if sk_allows(c, an))
+                nfa_modes = tuple(an for an in (UN, AN) if not sk_allows(c, an))
+                ng = 3 if big else 12
+                if dfa_modes:
+                    hs += h_sim(prop, c, facts, "cd", dfa_modes, group=40)
+                    nd_quick = any(k in c.name for k in ("basic", "empty", "dup", "dd0", "ci", "hi"))
+                    if not quick or nd_quick:
+                        hs += h_sim(prop, c, facts, "nd", dfa_modes, group=ng, timeout=1800, dead_rows=False)
                     if not quick:
-                        hs.append(h_ac_iter(prop, c, facts, "cnfa", n=3))
+                        x = h_sim(prop, c, facts, "nd", dfa_modes, group=1, timeout=3000, dead_rows=True)
+                        for h in x:
+                            h.mem_gb = 28
+                        hs += x
+                if nfa_modes:
+                    hs += h_sim(prop, c, facts, "nc", nfa_modes, group=ng, timeout=1800, dead_rows=False)
+                if prop == "C04" and c.sk in ("both", "un") and ("basic" in c.name or "empty" in c.name) and c.mk != "ll":
+                    # through the top-level searcher (find / is_match are decided by C14's wrapper harness)
+                    if c.mk == "std":
+                        hs.append(h_ac_iter(prop, c, facts, "dfa", n=3 if quick else 4, which="overlapping"))
+                    if not quick:
+                        # FindIter through the dyn dispatch needs > 16 GB (measured)
+                        h = h_ac_iter(prop, c, facts, "dfa", n=3, which="iter", timeout=3000)
+                        h.mem_gb = 28
+                        hs.append(h)
                 if prop == "C16" and c.sk in ("both", "un") and (not quick or "basic" in c.name or "empty" in c.name or "dd" in c.name):
                     hs.append(h_recipe(prop, c, facts, "dfa", n=6 if quick else 8))
             return hs
@@ -768,13 +910,12 @@ def schedule(prop, tier, seed):
                 kinds = ["dfa", "cnfa", "nnfa"]
                 if quick and c.name not in ("c13std_un", "c13lf_an"):
                     kinds = ["dfa"]
-                # the iterator entry points are several times dearer than the
-                # single-search ones (every dyn call explores all three kinds)
-                dear = (not quick) or c.name in ("c13std_un", "c13lf_both", "c13std_an")
+                hs.append(h_iter_never_fails(prop, c, facts, "dfa", ov=False))
+                if c.mk == "std":
+                    hs.append(h_iter_never_fails(prop, c, facts, "dfa", ov=True))
                 for kind in kinds:
                     full = kind == "dfa" or not quick
-                    apis = [0, 2] + ([1, 3] if (full and dear) else [])
-                    for api in apis:
+                    for api in ([0, 1, 2, 3] if full else [0, 2]):
                         hs.append(h_reject_fallible(prop, c, facts, kind, api))
                     if full:
                         hs.append(h_reject_sr(prop, c, facts, kind, "stream"))
@@ -783,7 +924,7 @@ def schedule(prop, tier, seed):
                             # dyn dispatch, which exhausts 16 GB (measured); the rejected cells
                             # return before it and are decided here
                             hs.append(h_reject_sr(prop, c, facts, kind, "replace"))
-                    for api in ([6, 0, 2] + ([1, 3] if dear else [])) if full else [6]:
+                    for api in ([6, 0, 1, 2, 3] if full else [6]):
                         for rej in (True, False):
                             if reject_possible(c, 0 if api == 6 else api, rej):
                                 hs.append(h_reject_infallible(prop, c, facts, kind, api, rej))
@@ -873,7 +1014,7 @@ def schedule(prop, tier, seed):
                     m = f["teddy_bytes"]
                     length = 16 + m - 1
                     w = min(c.maxlen + 2, 4)
-                    wins = [(length, length - w)] if quick else [(length, 0), (length, length - w), (length + 2, 14), (length + 2, length + 2 - w)]
+                    wins = [(length + 1, length + 1 - w)] if quick else [(length, 0), (length, length - w), (length + 2, 14), (length + 2, length + 2 - w)]
                     if quick and c is not tcases[0]:
                         continue
                     for (ln, off) in wins:
